@@ -198,7 +198,9 @@ def part_cli(chk, runner):
         n = [1, 2, 4, 5, 7, 9][i]
         marker = "ABCDEF"[i]
         doc = pdfgen.page_doc(n, marker=marker, kids_levels=(2 if i % 2 == 1 or n > 6 else 1),
-                              rotate={2: 90, 5: 270} if i % 3 == 0 else ({3: 180, 4: 45} if i % 3 == 1 else None),
+                              # (file F, 9 pages in groups of 3: pages 4 and 6 carry an explicit /Rotate 0 that overrides the /Rotate 90
+                              #  inherited from their /Pages node; a relative rotation must start from 0, not from the ancestor's angle)
+                              rotate={2: 90, 5: 270} if i % 3 == 0 else ({3: 180, 4: 45} if i % 3 == 1 else ({4: 0, 6: 0, 8: 0} if n > 6 else None)),
                               mediabox={1: [0, 0, 200, 200 + i]})
         data, _ = pdfgen.write_classic(doc)
         path = os.path.join(wd, "in%s.pdf" % marker)
@@ -229,6 +231,12 @@ def part_cli(chk, runner):
             rots = [(rng.choice(["+", "-", ""]), rng.choice([0, 90, 180, 270]), gen_range_valid(rng, n)) for _ in range(rng.randint(1, 2))]
             jobs.append(("rotate", fi, rots))
 
+    # fixed jobs aimed at the case split of rotatePage: relative rotation of pages with own / inherited / explicitly-zero /Rotate
+    for fi in range(nfiles):
+        n = len(files[fi][1])
+        jobs.append(("rotate", fi, [("+", 90, "1-z")]))
+        jobs.append(("rotate", fi, [("-", 90, "1-z"), ("+", 180, "r1")]))
+        jobs.append(("rotate", fi, [("", 0, "1"), ("+", 90, "1")]))        # absolute 0 first, then relative: starts from the explicit 0
     # expected values from the extracted specifications
     qlines = []
     for job in jobs:
@@ -384,6 +392,8 @@ def run(chk):
                        "non-trivial = job selecting more than one page, distinct by argv") % BODY_ALPHA
     part_numrange(chk, drv, runner)
     part_cli(chk, runner)
+    import c12_forms
+    c12_forms.part_forms(chk)
 
 
 def replay(chk, rep):
